@@ -87,6 +87,11 @@ func (c *Collection) Find(query, sort bsonkit.Doc, skip, limit int) (*Result, er
 		}
 	}
 
+	// check skip
+	if skip < 0 {
+		return nil, fmt.Errorf("skip must not be negative")
+	}
+
 	// adjust limit
 	if limit > 0 {
 		limit += skip
@@ -227,6 +232,11 @@ func (c *Collection) Update(query, update, sort bsonkit.Doc, skip, limit int, ar
 		if err != nil {
 			return nil, err
 		}
+	}
+
+	// check skip
+	if skip < 0 {
+		return nil, fmt.Errorf("skip must not be negative")
 	}
 
 	// adjust limit
@@ -411,6 +421,11 @@ func (c *Collection) Delete(query, sort bsonkit.Doc, skip, limit int) (*Result, 
 		if err != nil {
 			return nil, err
 		}
+	}
+
+	// check skip
+	if skip < 0 {
+		return nil, fmt.Errorf("skip must not be negative")
 	}
 
 	// adjust limit
